@@ -63,7 +63,7 @@ def _collective_targets(fnode):
     out = {}
     for s in _ast.walk(fnode):
         if isinstance(s, _ast.Assign) and isinstance(s.value, _ast.Call) and isinstance(s.value.func, _ast.Attribute) and \
-                s.value.func.attr in ("gather", "bcast"):
+                s.value.func.attr in ("gather", "bcast", "scatter"):
             if isinstance(s.targets[0], _ast.Name):
                 out[id(s.value)] = s.targets[0].id
             elif s.value.args and isinstance(s.value.args[0], _ast.Name):
@@ -842,3 +842,210 @@ def expand_or_factor_gather_contract(root=True):
         rs = _gather_regions(fnode, "change_vals")
         return rs[0] if rs else None
     return parallel_gather_contract("expand_or_factor", region, names, root)
+
+
+def _eof_apply_region(fnode):
+    for s in reversed(fnode.body):
+        if isinstance(s, _ast.For) and any(isinstance(t, _ast.Assign) and isinstance(t.targets[0], _ast.Subscript) and getattr(t.targets[0].value, "id", None) == "all_sym" for t in s.body):
+            return [s]
+    return None
+
+
+def expand_or_factor_apply_contract():
+    """The loop of expand_or_factor that writes the (joined) changes back: all_sym[keys[change_idx[i]]] = change_vals[i].  With distinct keys
+    and every index listed once (each index is handled by exactly one rank, once): afterwards the entry of every listed index holds its new
+    value and every other entry of the dictionary is unchanged."""
+    NK, NCHG = z3.Int("n_keys"), z3.Int("n_changed")
+    GI = z3.Function("joined.idx", I, I)
+    GV = z3.Function("joined.val", I, Fn)
+    from pyvc.values import HDict
+    D0H = z3.Function("all_sym0.has", Label, z3.BoolSort())
+    D0V = z3.Function("all_sym0.val", Label, Fn)
+
+    def mk_keys(eng, st):
+        v = eng.fresh(T.list(T.label), "keys", st)
+        st.heap[v.addr].len = NK
+        return v
+
+    def requires(S, a):
+        K = S.seq(a["keys"])
+        i, j = z3.Ints("i!rq j!rq")
+        return [("keys are the (distinct) keys of the dictionary", z3.And(
+                    z3.ForAll([i, j], z3.Implies(z3.And(0 <= i, i < j, j < NK), K.get(i).t != K.get(j).t)),
+                    z3.ForAll([i], z3.Implies(z3.And(0 <= i, i < NK), D0H(K.get(i).t))))),
+                ("every listed index is a position of keys, and is listed once", z3.And(
+                    z3.ForAll([i], z3.Implies(z3.And(0 <= i, i < NCHG), z3.And(0 <= GI(i), GI(i) < NK)), patterns=[GI(i)]),
+                    z3.ForAll([i, j], z3.Implies(z3.And(0 <= i, i < j, j < NCHG), GI(i) != GI(j)), patterns=[z3.MultiPattern(GI(i), GI(j))]))),
+                ("sizes", z3.And(NK >= 0, NCHG >= 0))]
+
+    def state(S, upto):
+        d = S.st.heap[S.var("all_sym").addr]
+        K = S.seq(S.var("keys"))
+        p, s_ = z3.Int(fresh_name("p!ea")), z3.Const(fresh_name("s!ea"), Label)
+        listed = z3.Exists([p], z3.And(0 <= p, p < upto, K.get(GI(p)).t == s_))
+        return [("the entries of the indices listed so far hold their new values",
+                 z3.ForAll([p], z3.Implies(z3.And(0 <= p, p < upto), z3.And(d.has(K.get(GI(p)).t), d.val(K.get(GI(p)).t).t == GV(p))), patterns=[GI(p)])),
+                ("every other entry is unchanged (no key appears or disappears)",
+                 z3.ForAll([s_], z3.And(d.has(s_) == D0H(s_), z3.Implies(z3.And(D0H(s_), z3.Not(listed)), d.val(s_).t == D0V(s_)))))]
+
+    c = Contract("expand_or_factor", {"all_sym": lambda eng, st: st.alloc(HDict(lambda t: D0H(t), lambda t: VFn(D0V(t)), None)), "keys": mk_keys,
+                                      "change_idx": lambda eng, st: st.alloc(HSeq(NCHG, lambda k: VInt(GI(k)), etype=T.int)),
+                                      "change_vals": lambda eng, st: st.alloc(HSeq(NCHG, lambda k: VFn(GV(k)), etype=T.fn))},
+                 requires=requires, ensures=lambda S, a, r: [("after the loop: " + n, f) for n, f in state(S, NCHG)], region=_eof_apply_region,
+                 raises=lambda S, a, e: z3.BoolVal(False))
+    c.loop_select = lambda node: LoopSpec(lambda S, st: state(S, S.var("__i").t))
+    c.region_name = "writing the joined changes back"
+    return c
+
+
+# ------------------------------------------------------------ check_results: handing out the functions to verify (C13, C03)
+SF = z3.Function("shuffled.fun", I, Label)        # function strings after the shuffle (root's list)
+SIV = z3.Function("shuffled.inv", I, Fn)          # their rows of the map file
+SMT = z3.Function("shuffled.match", I, I)         # their matches
+
+
+def _cr_dist_region(fnode):
+    """from the first `i = utils.split_idx(nfun, rank, size)` to the scatter of inv_subs"""
+    a = b = None
+    for k, s in enumerate(fnode.body):
+        if a is None and isinstance(s, _ast.Assign) and isinstance(s.value, _ast.Call) and getattr(s.value.func, "attr", None) == "split_idx":
+            a = k
+        if a is not None and isinstance(s, _ast.Assign) and isinstance(s.value, _ast.Call) and getattr(s.value.func, "attr", None) == "scatter" and \
+                getattr(s.targets[0], "id", None) == "inv_subs":
+            b = k
+            break
+    return fnode.body[a:b + 1] if a is not None and b is not None else None
+
+
+def _cr_match_region(fnode):
+    """`if rank == 0: matches = ...; matches = matches[shufidx]; matches = np.array_split(matches, size) else: None` and the scatter"""
+    for k, s in enumerate(fnode.body):
+        if isinstance(s, _ast.Assign) and isinstance(s.value, _ast.Call) and getattr(s.value.func, "attr", None) == "scatter" and getattr(s.targets[0], "id", None) == "matches":
+            if k > 0 and isinstance(fnode.body[k - 1], _ast.If):
+                return [fnode.body[k - 1], s]
+    return None
+
+
+def check_results_distribute_contract(root=True):
+    """Every rank receives the functions (and their map rows) at the positions LO(r) .. LO(r+1)-1 of the root's shuffled list, in order;
+    a rank that owns nothing receives empty lists.  (The matches are handed out by np.array_split: see the second contract; both use the same
+    slice starts, which is what keeps function i, map i and match i of a rank together.)"""
+    NF = z3.Int("nfun")
+
+    def sx(eng, fn, wrapf):
+        return lambda q: _row(eng, LENF(q), lambda c, q=q: wrapf(fn(LO(q) + c)))
+
+    def g_scalar(name):
+        ne = lambda q: LO(q) < LO(q + 1)
+        if name == "imin":
+            return lambda q: VInt(z3.If(ne(q), LO(q), 0))
+        return lambda q: VInt(z3.If(ne(q), LO(q + 1), 0))
+
+    def m_gather(eng, st, args, kwargs, node):
+        name = st.ghost["coll"].get(id(node))
+        if name not in ("imin", "imax"):
+            raise Unsupported("check_results gathers %r here: no specification in the sidecar" % name)
+        g = g_scalar(name)
+        same(eng, st, args[0], g(R), "guarantee for gather(%s): the local value is the specified value of this rank" % name, z3.BoolVal(True), node)
+        return VMaybeNone(R != 0, st.alloc(HSeq(P, g, etype=T.int)))
+
+    def m_scatter(eng, st, args, kwargs, node):
+        name = st.ghost["coll"].get(id(node))
+        spec = {"all_fun": sx(eng, SF, VLabel), "inv_subs": sx(eng, SIV, VFn)}.get(name)
+        if spec is None:
+            raise Unsupported("check_results scatters %r here: no specification in the sidecar" % name)
+        same(eng, st, args[0], st.alloc(HSeq(P, spec)), "guarantee for scatter(%s): on the root, piece q is the specified piece of rank q" % name, R == 0, node)
+        return spec(R)
+
+    def m_split_idx(eng, st, args, kwargs, node):
+        n, r, p = args
+        eng.oblige(st, "split_idx is called for (nfun, rank, size)", z3.And(eng.as_int(n) == NF, eng.as_int(r) == R, eng.as_int(p) == P), "spmd", node)
+        ne = LO(R) < LO(R + 1)
+        return st.alloc(HSeq(z3.If(ne, 2, 0), lambda k: VInt(z3.If(k == 0, LO(R), LO(R + 1) - 1)), etype=T.int))
+
+    def setup(eng, st, args):
+        st.env["rank"], st.env["size"] = VInt(R), VInt(P)
+        eng.models["utils.split_idx"] = m_split_idx
+        eng.models["comm.gather"] = m_gather
+        eng.models["comm.scatter"] = m_scatter
+        st.ghost["coll"] = _collective_targets(eng.find_function("check_results"))
+        eng.axioms += _lo_axioms(NF)
+        st.assume(R == 0 if root else R != 0)
+
+    def mk_root_list(fn, wrapf, et):
+        def mk(eng, st):
+            if root:
+                return st.alloc(HSeq(NF, lambda p: wrapf(fn(p)), etype=et))
+            return VNone()
+        return mk
+
+    def ensures(S, a, res):
+        c = z3.Int(fresh_name("c!sk"))
+        out = []
+        for name, fn in (("all_fun", SF), ("inv_subs", SIV)):
+            v = S.var(name)
+            if not isinstance(v, VRef):
+                out.append(("%s is a list after the scatter" % name, z3.BoolVal(False)))
+                continue
+            o = S.seq(v)
+            out.append(("the rank holds as many entries of %s as its slice has" % name, o.len == LENF(R)))
+            out.append(("entry c of the rank's %s is entry LO(rank) + c of the root's shuffled list" % name, z3.Implies(z3.And(0 <= c, c < LENF(R)), o.get(c).t == fn(LO(R) + c))))
+        return out
+
+    c = Contract("check_results", {"nfun": lambda e, s: VInt(NF), "all_fun": mk_root_list(SF, VLabel, T.label), "inv_subs": mk_root_list(SIV, VFn, T.fn)},
+                 requires=lambda S, a: [("0 <= rank < size, nfun >= 0", z3.And(0 <= R, R < P, NF >= 0))], ensures=ensures, setup=setup, region=_cr_dist_region,
+                 raises=lambda S, a, e: z3.BoolVal(False))
+    c.region_name = "handing out functions and map rows (%s)" % ("root" if root else "other ranks")
+    return c
+
+
+def check_results_matches_contract(root=True):
+    """The matches are read, put in the shuffled order and handed out with np.array_split: rank r receives the matches of the positions
+    LO(r) .. LO(r+1)-1 of the shuffled list -- the same positions as its functions and map rows (first contract), so local index i
+    means the same function in all three."""
+    NF, NALL = z3.Int("nfun"), z3.Int("n_all")
+    MR = z3.Function("matches.file", I, I)
+    SH = z3.Function("shufidx", I, I)
+
+    def piece(eng, q):
+        return _row(eng, LENF(q), lambda c, q=q: VInt(MR(SH(LO(q) + c))), numpy=True, etype=T.int)
+
+    def m_array_split(eng, st, args, kwargs, node):
+        a, n = args[0], args[1]
+        o = st.heap[a.addr]
+        eng.oblige(st, "np.array_split is called for (the nfun shuffled matches, size)", z3.And(o.len == NF, eng.as_int(n) == P), "spmd", node)
+        g = o.get
+        return st.alloc(HSeq(P, lambda q: _row(eng, LENF(q), lambda c, q=q: g(LO(q) + c), numpy=True, etype=T.int)))
+
+    def m_scatter(eng, st, args, kwargs, node):
+        same(eng, st, args[0], st.alloc(HSeq(P, lambda q: piece(eng, q))), "guarantee for scatter(matches): on the root, piece q is the specified piece of rank q", R == 0, node)
+        return piece(eng, R)
+
+    def setup(eng, st, args):
+        st.env["rank"], st.env["size"] = VInt(R), VInt(P)
+        eng.models["np.array_split"] = m_array_split
+        eng.models["comm.scatter"] = m_scatter
+        eng.models["np.loadtxt"] = lambda e, s, a, k, n: s.alloc(HSeq(NALL, lambda p: VInt(MR(p)), numpy=True, etype=T.int))
+        eng.models["np.atleast_1d"] = lambda e, s, a, k, n: a[0]
+        eng.axioms += _lo_axioms(NF)
+        st.assume(R == 0 if root else R != 0)
+
+    def requires(S, a):
+        p = z3.Int("p!rq")
+        return [("0 <= rank < size; the shuffled indices are positions of the match file", z3.And(0 <= R, R < P, NF >= 0, NALL >= 0,
+                 z3.ForAll([p], z3.Implies(z3.And(0 <= p, p < NF), z3.And(0 <= SH(p), SH(p) < NALL)), patterns=[SH(p)])))]
+
+    def ensures(S, a, res):
+        v = S.var("matches")
+        c = z3.Int(fresh_name("c!sk"))
+        if not isinstance(v, VRef):
+            return [("matches is an array after the scatter", z3.BoolVal(False))]
+        o = S.seq(v)
+        return [("the rank holds as many matches as its slice has", o.len == LENF(R)),
+                ("match c of the rank is the match of shuffled position LO(rank) + c", z3.Implies(z3.And(0 <= c, c < LENF(R)), o.get(c).t == MR(SH(LO(R) + c))))]
+
+    c = Contract("check_results", {"shufidx": (lambda e, s: s.alloc(HSeq(NF, lambda p: VInt(SH(p)), numpy=True, etype=T.int))) if root else (lambda e, s: VNone()),
+                                   "dirname": T.label, "compl": T.int},
+                 requires=requires, ensures=ensures, setup=setup, region=_cr_match_region, raises=lambda S, a, e: z3.BoolVal(False))
+    c.region_name = "handing out the matches (%s)" % ("root" if root else "other ranks")
+    return c
